@@ -294,6 +294,19 @@ def opBloch (j : Json) : Except String Json := do
   let ms := qs.map fun q => jlist (jlist jpairI) (Ham.blochMatrix n edges cross w q)
   pure (Json.mkObj [("H2", Json.arr ms.toArray)])
 
+
+/-! ### C18: markers (exact) -/
+
+def opMarker (j : Json) : Except String Json := do
+  let N ← listOf (listOf pairI) (← field j "N")
+  let xs ← ints (← field j "xs")
+  let ys ← ints (← field j "ys")
+  let n := N.length
+  if N.any (fun r => r.length != n) || xs.length != n || ys.length != n then throw "shape"
+  let cross ← match fieldOpt j "crosshairs" with | some c => listOf pairI c | none => pure []
+  let ch := cross.map fun c => jints (Marker.crosshair N xs ys c.1 c.2)
+  pure (Json.mkObj [("chern", jints (Marker.chern N xs ys)), ("crosshair", Json.arr ch.toArray)])
+
 def dispatch (op : String) (j : Json) : Except String Json :=
   match op with
   | "plaquettes" => opPlaquettes j
@@ -307,6 +320,7 @@ def dispatch (op : String) (j : Json) : Except String Json :=
   | "gen" => opGen j
   | "majorana" => opMajorana j
   | "bloch" => opBloch j
+  | "marker" => opMarker j
   | "lateq" => opLatEq j
   | _ => throw "bad-op"
 
